@@ -11,6 +11,8 @@ un-translatable obligation):
     for Python ints and wraps for wider NumPy scalars; both are "not the mathematical value")
   * np.iinfo(np.intN).min/.max/.bits
   * for _ in range(...) with loop-carried locals, no return/break/assert in the body
+  * `while cond: body` with integer loop-carried locals, only with an iteration bound spec["while_fuel"] (expression over
+    the parameters): a local structural fix over S (Z.to_nat bound); out of fuel = None (C10: calc_explicit_padding)
   * lst.append(e) on a parameter declared "list"
   * calls of other translated functions, attribute reads of parameters declared as records
     (flattened to one Gallina parameter per used field), method calls through METHODS
@@ -471,6 +473,8 @@ class Fn:
             return self.wrap(pre, "if %s then %s else %s" % (c, a, b))
         if isinstance(s, ast.For):
             return self.forloop(s, env, nxt)
+        if isinstance(s, ast.While):
+            return self.whileloop(s, env, nxt)
         if isinstance(s, ast.Expr) and isinstance(s.value, ast.Call):
             c = s.value
             if isinstance(c.func, ast.Attribute) and c.func.attr == "append" and isinstance(c.func.value, ast.Name):
@@ -576,6 +580,68 @@ class Fn:
             pat = "'(" + ", ".join(names) + ")"
             return self.wrap(pre, "let %s := %s in %s" % (pat, t, nxt(env2)))
         raise Unsupported("assignment target")
+
+    def whileloop(self, s, env, nxt):
+        """`while cond: body` with loop-carried locals, only when the spec bounds the number of iterations:
+        spec["while_fuel"] = a Python expression over the parameters; the loop is a local structural `fix` over
+        S (Z.to_nat fuel) and running out of fuel is the error result None (the function becomes partial)."""
+        if s.orelse:
+            raise Unsupported("while-else")
+        if "while_fuel" not in self.spec:
+            raise Unsupported("statement While (no while_fuel bound in the spec)")
+        for n in ast.walk(s):
+            if isinstance(n, (ast.Return, ast.Break, ast.Continue, ast.Assert, ast.Raise, ast.For)) or (n is not s and isinstance(n, ast.While)):
+                raise Unsupported("control transfer or nested loop inside while")
+        pre = []
+        fuel, fty = self.expr(ast.parse(self.spec["while_fuel"], mode="eval").body, env, pre)
+        self.need(fty, "Z", s)
+        carried = []
+        for n in ast.walk(ast.Module(body=s.body, type_ignores=[])):
+            tgt = n.targets[0] if isinstance(n, ast.Assign) else n.target if isinstance(n, ast.AugAssign) else None
+            if isinstance(tgt, ast.Name) and tgt.id in env and tgt.id not in carried:
+                carried.append(tgt.id)
+        if not carried:
+            raise Unsupported("loop without carried state")
+        for c in carried:
+            if env[c][1] != "Z":
+                raise Unsupported("while: carried variable %s is not an integer" % c)
+        env_in = dict(env)
+        acc_names = []
+        for c in carried:
+            v = self.fresh(c)
+            env_in[c] = (v, "Z")
+            acc_names.append(v)
+        tup = lambda names: names[0] if len(names) == 1 else "(" + ", ".join(names) + ")"
+        cpre = []
+        cnd = self.cond(s.test, env_in, cpre)
+        if cpre:
+            raise Unsupported("while: partial operation in the loop condition")
+        saved_opt = self.opt
+        self.opt = False
+        pu = self.partial_used
+        self.partial_used = False
+        body = self.block(list(s.body), env_in, lambda e2: tup([e2[c][0] for c in carried]))
+        if self.partial_used:
+            raise Unsupported("while: partial operation in the loop body")
+        self.partial_used = pu
+        self.opt = saved_opt
+        accty = "Z" if len(carried) == 1 else "(" + " * ".join("Z" for _ in carried) + ")"
+        wl, fv, av = self.fresh("wl"), self.fresh("fuel"), self.fresh("acc")
+        bind = "" if len(carried) == 1 else "let '%s := %s in " % (tup(acc_names), av)
+        if len(carried) == 1:
+            av = acc_names[0]
+        loop = ("(fix %s (%s : nat) (%s : %s) {struct %s} : option %s := match %s with O => None | S %s' => %s"
+                "if %s then %s %s' (%s) else Some %s end)" % (wl, fv, av, accty, fv, accty, fv, fv, bind, cnd, wl, fv, body, av))
+        out_names = []
+        env2 = dict(env)
+        for c in carried:
+            v = self.fresh(c)
+            env2[c] = (v, "Z")
+            out_names.append(v)
+        init = tup([env[c][0] for c in carried])
+        self.partial_used = True
+        return self.wrap(pre, "match %s (S (Z.to_nat %s)) %s with Some %s => %s | None => None end" % (
+            loop, fuel, init, tup(out_names) if len(out_names) == 1 else "(" + ", ".join(out_names) + ")", nxt(env2)))
 
     def forloop(self, s, env, nxt):
         if s.orelse:
